@@ -4,6 +4,7 @@ package zzverif
 // Check is called for every target / header map; the verdict vectors are logged for DispatchTrace.tla.
 
 import (
+	"sync"
 	"bufio"
 	"context"
 	"encoding/json"
@@ -130,6 +131,8 @@ var c08Inputs = []map[string]string{
 	{}, {"x-t": "a"}, {"x-t": "ab"}, {"x-t": "b"}, {"x-t": ""}, {"x-other": "a"}, {"x-t": "a", "x-other": "ab"}, {"x-t": "abc"},
 	// the header value is compared as a whole: lists, blanks and case are not interpreted
 	{"x-t": "b,a"}, {"x-t": "a,b"}, {"x-t": " a"}, {"x-t": "a "}, {"x-t": "A"}, {"x-t": "b, a"},
+	// requests an OIDC filter denies with other codes than "unauthenticated": a callback without code (with and without the chain header)
+	{"~shape": "callbackNoCode"}, {"~shape": "callbackNoCode", "x-t": "a"}, {"~shape": "callbackNoQuery", "x-t": "ab"},
 }
 
 func chars(s string) []any {
@@ -235,10 +238,20 @@ func runDispatchFile(in, out, targetsFile, tmp string) (int, error) {
 			for _, h := range order {
 				before := calls.Load()
 				hh := map[string]string{}
+				path := "/x"
 				for k, v := range h {
+					if k == "~shape" {
+						// the callback of the static OIDC filter, presented with a session cookie and without an authorization code
+						path = "/cb?state=s"
+						if v == "callbackNoQuery" {
+							path = "/cb"
+						}
+						hh["cookie"] = "__Host-authservice-session-id-cookie=0123456789abcdef0123456789abcdef"
+						continue
+					}
 					hh[k] = v
 				}
-				resp, err := flt.Check(ctx, dispatchReq("/x", hh))
+				resp, err := flt.Check(ctx, dispatchReq(path, hh))
 				o := "error"
 				if err == nil && resp != nil {
 					switch {
@@ -246,8 +259,8 @@ func runDispatchFile(in, out, targetsFile, tmp string) (int, error) {
 						o = "ok"
 					case resp.GetStatus().GetCode() == 7:
 						o = "deny"
-					case resp.GetStatus().GetCode() == 16 && resp.GetDeniedResponse() != nil:
-						o = "oidc"
+					case resp.GetDeniedResponse() != nil && (resp.GetStatus().GetCode() == 16 || resp.GetStatus().GetCode() == 3):
+						o = "oidc" // the OIDC filter's denials: unauthenticated (login redirect) or invalid argument (malformed callback)
 					default:
 						o = fmt.Sprintf("code%d", resp.GetStatus().GetCode())
 					}
@@ -304,14 +317,43 @@ func runDispatchFile(in, out, targetsFile, tmp string) (int, error) {
 				own = append(own, chars(strings.Join(t, "")))
 			}
 		}
+		verdict := func(f *server.ExtAuthZFilter, path string) int {
+			resp, err := f.Check(ctx, dispatchReq(path, nil))
+			if err == nil && resp != nil && resp.GetStatus().GetCode() == 0 {
+				return 0
+			}
+			return 1
+		}
+		// first, on an instance of its own: every target requested by several clients at once (same path, different queries);
+		// the decision is a function of the path, so it cannot depend on who asked first
+		conc := -1
+		if fltC, _, err := newFilter(cfg); err == nil {
+			const clients = 4
+			for i, t := range ts {
+				path := strings.Join(t, "")
+				res := make([]int, clients)
+				var wg sync.WaitGroup
+				start := make(chan struct{})
+				for g := 0; g < clients; g++ {
+					wg.Add(1)
+					go func(g int) {
+						defer wg.Done()
+						<-start
+						res[g] = verdict(fltC, path)
+					}(g)
+				}
+				close(start)
+				wg.Wait()
+				for g := 1; g < clients; g++ {
+					if res[g] != res[0] && conc < 0 {
+						conc = i + 1
+					}
+				}
+			}
+		}
 		verdicts := []any{}
 		for _, t := range ts {
-			resp, err := flt.Check(ctx, dispatchReq(strings.Join(t, ""), nil))
-			v := 1
-			if err == nil && resp != nil && resp.GetStatus().GetCode() == 0 {
-				v = 0
-			}
-			verdicts = append(verdicts, v)
+			verdicts = append(verdicts, verdict(flt, strings.Join(t, "")))
 		}
 		rl := []any{}
 		for _, r := range c.Rules {
@@ -324,7 +366,7 @@ func runDispatchFile(in, out, targetsFile, tmp string) (int, error) {
 			}
 			rl = append(rl, map[string]any{"excl": pl(r.Excl), "incl": pl(r.Incl)})
 		}
-		rec.emit(map[string]any{"ev": "c07", "id": c.ID, "rules": rl, "verdicts": verdicts, "own": own})
+		rec.emit(map[string]any{"ev": "c07", "id": c.ID, "rules": rl, "verdicts": verdicts, "own": own, "conc": conc})
 	}
 	return n, sc.Err()
 }
